@@ -74,3 +74,52 @@ pub fn stw_bracket(events: &[VmEvent], w: &World) -> Result<(), Fail> {
     }
     Ok(())
 }
+
+/// C13: per collection — `process_weak_refs` is called in rounds 1, 2, ... n; every call but the
+/// last returned true and the last returned false (whenever it returns true it is called again,
+/// and never after it returned false); when the harness knows the ephemeron chain depth, n equals
+/// it (+1); `forward_weak_refs` is called exactly once, after the last round, in plans that
+/// forward after liveness, and never otherwise.  (That the closure is complete at each call is
+/// checked inside the upcall itself, see `vm.rs`.)
+pub fn weak_rounds(events: &[VmEvent], w: &World, expected_calls: Option<usize>) -> Result<(), Fail> {
+    let (gcs, _) = split_collections(events);
+    let forwards = w.mmtk.get_plan().constraints().needs_forward_after_liveness;
+    let single = gcs.len() == 1;
+    for gc in gcs {
+        let rounds: Vec<(usize, bool)> = gc.iter().filter_map(|e| if let VmEvent::ProcessWeakRefs { round, more } = e { Some((*round, *more)) } else { None }).collect();
+        // a pause without a reference-processing stage (ConcurrentImmix initial mark) has none
+        if rounds.is_empty() {
+            if w.cfg.plan == "ConcurrentImmix" {
+                continue;
+            }
+            return fail("weak:not_called", "a collection finished without calling process_weak_refs".to_string());
+        }
+        for (i, (r, more)) in rounds.iter().enumerate() {
+            if *r != i + 1 {
+                return fail("weak:round_order", format!("process_weak_refs rounds out of order: {:?}", rounds));
+            }
+            let last = i + 1 == rounds.len();
+            if last && *more {
+                return fail("weak:not_repeated", format!("process_weak_refs returned true in round {} but was not called again: {:?}", r, rounds));
+            }
+            if !last && !*more {
+                return fail("weak:called_after_false", format!("process_weak_refs returned false in round {} but was called again: {:?}", r, rounds));
+            }
+        }
+        if let (Some(n), true) = (expected_calls, single) {
+            if rounds.len() != n {
+                return fail("weak:round_count", format!("process_weak_refs was called {} times, the weak table needs {} rounds", rounds.len(), n));
+            }
+        }
+        let fw: Vec<usize> = gc.iter().enumerate().filter(|(_, e)| matches!(e, VmEvent::ForwardWeakRefs)).map(|(i, _)| i).collect();
+        if forwards {
+            let last_round = gc.iter().rposition(|e| matches!(e, VmEvent::ProcessWeakRefs { .. })).unwrap();
+            if fw.len() != 1 || fw[0] < last_round {
+                return fail("weak:forward", format!("forward_weak_refs was called {} times (expected once, after the last process_weak_refs round)", fw.len()));
+            }
+        } else if !fw.is_empty() {
+            return fail("weak:forward", "forward_weak_refs was called in a plan that does not forward after liveness".to_string());
+        }
+    }
+    Ok(())
+}
